@@ -490,25 +490,25 @@ def r1b_audio_period(facts):
                 if ap and strip(ap[0]).get('k') == 'DeclRefExpr':
                     defs[strip(ap[0])['id']].append(ap[1])
         # frame cap of one round
-        for vid, ds in defs.items():
-            for d in ds:
-                m = minlike(d)
-                if m:
-                    for arm in m:
-                        c = const_of(arm)
-                        if c is not None and c >= 64:
-                            caps.add(c)
+        mdefs = min_defs(fn)
+        for vid, ms in mdefs.items():
+            for m in ms:
+                for arm in m:
+                    c = const_of(arm)
+                    if c is not None and c >= 64:
+                        caps.add(c)
         for b, j, st in fn.cfg.stmts():
             for x in calls_in(st['s']):
                 if short(callee_name(x)) in ('TickIterators', 'Tick') and x.get('a'):
                     a = strip(x['a'][0])
                     n += 1
-                    ds = defs.get(a.get('id'), []) if a.get('k') == 'DeclRefExpr' else [a]
-                    ok = bool(ds)
-                    for d in ds:
-                        m = minlike(d)
-                        if not (m and any(y.get('k') == 'MemberExpr' and short(y['n']) == 'maxdelay' for arm in m for y in walk(arm))):
-                            ok = False
+                    ms = mdefs.get(a.get('id'), []) if a.get('k') == 'DeclRefExpr' else [minlike(a)]
+                    # every definition of the period is a minimum with setup.maxdelay (a definition that a clamp statement follows
+                    # counts once, as that minimum)
+                    nd = len([d for d in defs.get(a.get('id'), [])]) if a.get('k') == 'DeclRefExpr' else 1
+                    n_clamp_stmts = sum(1 for m in ms if m and not any(minlike(d) for d in defs.get(a.get('id'), []) if show(strip(d)) == show(m[0]))) if a.get('k') == 'DeclRefExpr' else 0
+                    ok = bool(ms) and all(m and any(y.get('k') == 'MemberExpr' and short(y['n']) == 'maxdelay' for arm in m for y in walk(arm)) for m in ms) and \
+                        (a.get('k') != 'DeclRefExpr' or len(ms) + n_clamp_stmts >= nd)
                     out.append(Obl('C06.R1b', fn.name, '%s(%s)' % (short(callee_name(x)), show(a)[:20]), st['loc'], 'discharged' if ok else 'finding',
                                    why='the period is min(.., setup.maxdelay)' if ok else
                                    'the period handed to %s is not capped by setup.maxdelay while one round renders at most the capped block: with large requests the note ages (and the song) run ahead of the rendered audio, so pedal-held notes out-score idle channels early' % short(callee_name(x))))
